@@ -24,6 +24,10 @@ def gen(rng, tier):
                     max_arity=rng.randint(2, 5) if not big else rng.randint(3, 8), constants=0.2,
                     name_style=rng.choice(("plain", "plain", "underscore")), input_outputs=rng.choice((0.1, 0.1, 0.3)), min_outputs=1,
                     parity_bias=rng.choice((0.0, 0.3)))
+    if rng.random() < 0.04:
+        # a circuit without any primary output: nothing can be sensitized to an endpoint
+        for v in net["nodes"].values():
+            v[2] = False
     if rng.random() < 0.12:
         # a functionally constant node: x & ~x
         names = list(net["nodes"])
@@ -177,6 +181,14 @@ def run(case, ctx):
                 ctx.violate("C11.avg_sensitivity", f"avg_sensitivity({ns})[{n2}] = {allavg[n2]}, expected {wa}", sigm)
     # ---- sensitization_transform / sensitize on the first picked node
     n = case["nodes"][0]
+    if n in nodes and not outs:
+        # no endpoint at all: no valuation sensitizes n to an endpoint
+        ctx.probe("no_endpoints")
+        sig = {"n_is_input": nodes[n][0] == "input", "n_is_output": False, "endpoints": False, "no_outputs": True}
+        res = ctx.call("C11.sensitize_raises", sig, cg.props.sensitize, c, n, None)
+        ctx.log("sensitize", n, None if res is None else sorted(res.items()))
+        if res is not None:
+            ctx.violate("C11.sensitize_wrong", f"sensitize({n}) returned {res} for a circuit without any endpoint", sig)
     if n in nodes and outs:
         eps = case["endpoints"]
         sig = {"n_is_input": nodes[n][0] == "input", "n_is_output": bool(nodes[n][2]), "endpoints": bool(eps)}
@@ -247,7 +259,7 @@ def run(case, ctx):
 
 
 def sig_key(sig):
-    return (sig.get("exc"), sig.get("n_is_input"), sig.get("endpoints"), sig.get("list_form"))
+    return (sig.get("exc"), sig.get("n_is_input"), sig.get("endpoints"), sig.get("list_form"), sig.get("no_outputs"))
 
 
 def shrink(case):
